@@ -12,6 +12,7 @@ META = {
     "level_text": "Machine-checked proofs (Coq 8.16, axiom-free) that the model of chalk's anti-unifier and of merge_into_guidance only generalises (every merged answer is an instance of the result, for pairs and sequences), that the model of the may-invalidate check of the code as it is never wrongly says 'cannot change' outside the recorded class F1 (and that the model of the repaired check never does), that Solution::combine is commutative and never claims more than either candidate, and that with_priorities is commutative. 'Instance' is decided by an executable matcher proved equivalent to 'exists a substitution' w.r.t. the C25 model of chalk's Subst::apply. The models are tied to /repo on every run: real AntiUnifier::aggregate_generic_args, merge_into_guidance, is_trivial, Substitution::may_invalidate, AggregateOps::make_solution (over scripted answer streams), Solution::combine, with_priorities, calculate_inputs are called through hook H2 on an exhaustive head-constructor sweep and on generated inputs and compared with the models evaluated in Coq; in addition the property itself is evaluated on the implementation's outputs.",
     "level_note": "Trusted: Coq kernel; hand-written models coq/Agg/*.v (tied by correspondence on generated inputs of bounded size only); harness conversion sexp<->chalk_ir (harness/src/ir.rs, bin/agg.rs). Const types are usize (ChalkIr); substitutions compared have equal kinds position by position. Finding F1 is a recorded class (guidance repeating a variable where the unchanged and the repaired model differ); the repair is kept as corpus/C17/f1_proposed_fix.patch because the pinned suite blesses the defective output (tests/test/projection.rs nested_proj_eq_nested_proj_should_flounder).",
     "design_ref": "DESIGN.md section 4 C17, section 5 F1, section 7 H2",
+    "bins": ["agg"],
     "assumptions": ["const types are usize (ChalkIr lowering); the anti-unifier itself does not compare const types",
                     "substitutions merged / compared belong to the same goal: equal length and kinds position by position",
                     "combine / with_priorities commutativity is claimed for two solutions of one goal: two trivially-true solutions are identical",
@@ -689,6 +690,23 @@ def stage_make_solution(ctx, st, G):
             if f is not None:
                 ctx.known_finding(f, "make_solution over the answers %s returns %s" % (sx.to_sexp(evs)[:300], sx.to_sexp(o)[:200]))
                 continue
+        if st.viol < 3:
+            # minimise: drop events after the first, then strands, while the verdict stays the same
+            def verdict_of(cands):
+                oo = hrun([("MakeSolution", root, e, s_) for e, s_ in cands])
+                return [x == v for x in coq_verdicts(ctx, "ms_shr", "chk_ms_verdict", TY,
+                                                     [Pair(Pair(Pair(root, e), s_), okres(q)) for (e, s_), q in zip(cands, oo)])]
+            progress = True
+            while progress:
+                progress = False
+                cands = [(evs[:k] + evs[k + 1:], strands) for k in range(1, len(evs))] + [(evs, strands[:k] + strands[k + 1:]) for k in range(len(strands))]
+                if not cands:
+                    break
+                for c, keep in zip(cands, verdict_of(cands)):
+                    if keep:
+                        evs, strands, progress = c[0], c[1], True
+                        break
+            o = hrun([("MakeSolution", root, evs, strands)])[0]
         st.violation({"kind": "property", "law": "make_solution_covers", "op": "MakeSolution", "root": sx.to_sexp(root), "events": sx.to_sexp(evs), "strands": sx.to_sexp(strands),
                       "real_output": sx.to_sexp(o), "in_known_class_F1": v == 1,
                       "what": "make_solution returns definite guidance of which an answer of the stream is not an instance"})
